@@ -173,6 +173,15 @@ class Server:
             self.stream.feed(sse_event(None if self.bare else "message", json.dumps(resp, ensure_ascii=False)))
             await asyncio.sleep(d)
             return httpx.Response(202)
+        if m in ("event_then_200_body", "event_then_500", "event_then_exception"):
+            # the answer is already on the event stream when the POST completes - and it does not complete with 202
+            self.stream.feed(sse_event(None if self.bare else "message", json.dumps(resp, ensure_ascii=False)))
+            await asyncio.sleep(d)
+            if m == "event_then_200_body":
+                return httpx.Response(200, json=resp)
+            if m == "event_then_500":
+                return httpx.Response(500, content=b"late failure")
+            raise httpx.ReadError("connection reset after the request was handled", request=request)
         if m == "202_silence":
             return httpx.Response(202)
         if m == "202_event_twice":
@@ -226,7 +235,8 @@ REQUEST_MODES = ["200_body", "200_error_body", "202_then_event", "event_then_202
                  "event_then_202_error", "202_silence", "status_500",
                  "status_404_json", "status_400_jsonrpc", "exception", "read_timeout", "200_garbage",
                  "200_json_object_nonrpc", "200_json_array_nonrpc", "400_nullid_error",
-                 "server_request_same_id_then_200_body", "server_request_same_id_then_202_event"]
+                 "server_request_same_id_then_200_body", "server_request_same_id_then_202_event",
+                 "event_then_500", "event_then_exception"]   # (event + 200 body = a server answering twice: not a stated mode)
 IDS = [1, 0, "abc", "123", 2**53 + 1, "", -1]
 
 
